@@ -488,6 +488,13 @@ func genDataset(r *rand.Rand, S string, nowMs int64) []rdbx.Key {
 		case 2:
 			k.Key = []byte(fmt.Sprintf("%s%s:snap:h:%s", prefix, S, id))
 			k.Value = rdbx.Value{Kind: rdbx.KindHash, Hash: [][2][]byte{{e(0), e(1)}, {e(2), e(3)}}}
+			if r.Intn(2) == 0 {
+				// a "big" hash: with the chunk threshold lowered to 512 bytes (main) the tool replays it
+				// in 3-6 pieces (the value-splitting path of the snapshot phase, expanded replay only)
+				for j := 4; j < 44+r.Intn(40); j += 2 {
+					k.Value.Hash = append(k.Value.Hash, [2][]byte{e(j), []byte(fmt.Sprintf("e%d-%d-%s", i, j+1, strings.Repeat("x", 24)))})
+				}
+			}
 			k.Enc.Type = rdbx.TypeHash
 		case 3:
 			k.Key = []byte(fmt.Sprintf("%s%s:snap:t:%s", prefix, S, id))
